@@ -250,7 +250,13 @@ class Result:
         return self.rc == 137
 
     def warnings(self):
-        return [l for l in self.err.decode("utf-8", "replace").split("\n") if " warn:" in l or "warn: " in l]
+        # robust against cosmetic changes of the log format: any stderr line that says warn/error/fail
+        out = []
+        for l in self.err.decode("utf-8", "replace").split("\n"):
+            low = l.lower()
+            if "warn" in low or "error" in low or "failed" in low or "cannot" in low:
+                out.append(l)
+        return out
 
     def errors(self):
         return [l for l in self.err.decode("utf-8", "replace").split("\n") if "error:" in l]
